@@ -101,6 +101,20 @@ def pairs(ctx, n):
                 p += t[a:a + 64]
                 p += [rng.randrange(12) for _ in range(64 * (k + 1) - len(p))]
         out.append((t, p[:m]))
+    # text and pattern over disjoint symbol sets (poly-A against poly-G, low-complexity pieces): the answer is the pattern length itself, the value
+    # the scan starts from -- on every residue of m modulo 64 (a last block holding 1, 2, 63 or 64 pattern symbols) and next to the 1024 cap
+    for _ in range(max(40, n // 4)):
+        m = 64 * rng.randint(0, 16) + rng.choice([0, 1, 1, 1, 2, 33, 63])
+        m = max(1, m)
+        nlen = m + rng.choice([0, 1, 40, 300])
+        ks = rng.sample(range(13), rng.choice([2, 4, 6]))
+        half = len(ks) // 2
+        t = [rng.choice(ks[:half]) for _ in range(nlen)]
+        p = [rng.choice(ks[half:]) for _ in range(m)]
+        if rng.random() < 0.3:
+            # ... except that the LAST pattern symbol occurs in the text (once, late)
+            t[rng.randrange(len(t) * 2 // 3, len(t))] = p[-1]
+        out.append((t, p))
     return out
 
 
